@@ -8,7 +8,7 @@ Three parts.
    operation targets a buffer allocated inside that operation, then after ANY history every buffer
    that existed before is unchanged (`frame_history`, induction over the history).
 2. **Translator**: the list of syntactic in-place write sites of `pynapple/core` and
-   `pynapple/process` (163 on the pinned tree) is regenerated from the source on every run
+   `pynapple/process` (167 on the pinned tree; subscript / augmented / attribute assignments, in-place methods, `out=`, `inplace=True`) is regenerated from the source on every run
    (`tools/extract_inplace_sites.py` → `PynGen/InplaceSites.lean`), each with the root name of the
    written object and how that root is bound in its function.  `sites_classified` (`decide`): every
    site writes through a root bound by an allocator / literal / arithmetic in the same function
@@ -106,6 +106,8 @@ def whitelist : List (String × String) := [
   -- `np.log2(...)` results
   ("tuning_curves:compute_1d_mutual_info", "logfx"),
   ("tuning_curves:compute_2d_mutual_info", "logfx"),
+  -- decorator applied at import time: sets `__doc__` of the function object being defined, not of a data object
+  ("metadata_class:add_meta_docstring._decorator", "func"),
   -- `array = array.flatten()` (a copy) precedes the element writes
   ("utils:_convert_iter_to_str", "array")
 ]
@@ -115,10 +117,10 @@ def siteOK (s : String × String × String × String) : Bool :=
 
 /-- **every in-place write of the library is classified**: it goes through a root allocated in the
 same function, or is one of the justified sites -/
-theorem sites_classified : inplaceSites.all siteOK = true := by decide
+theorem sites_classified : inplaceSites.all siteOK = true := by decide +kernel
 
 /-- the whitelist has no stale entries: each names a site that exists in the current source -/
 theorem whitelist_is_live :
-    (whitelist.all fun w => inplaceSites.any fun s => s.1 == w.1 && s.2.2.1 == w.2) = true := by decide
+    (whitelist.all fun w => inplaceSites.any fun s => s.1 == w.1 && s.2.2.1 == w.2) = true := by decide +kernel
 
 end Pyn.C10
